@@ -10,6 +10,7 @@ mod model;
 mod obs;
 mod par;
 mod prattk;
+mod proc;
 mod props;
 mod rng;
 mod val;
@@ -23,7 +24,9 @@ fn arg(args: &[String], name: &str) -> Option<String> {
 fn main() {
     let args: Vec<String> = std::env::args().collect();
     // caught panics are verdict material, not noise
-    std::panic::set_hook(Box::new(|_| {}));
+    if std::env::var("CVH_PANICS").is_err() {
+        std::panic::set_hook(Box::new(|_| {}));
+    }
     match args.get(1).map(|s| s.as_str()) {
         Some("run") => {
             let prop = args.get(2).expect("property id").clone();
@@ -57,12 +60,24 @@ fn main() {
                 "C08" => props::c08::run(&cx),
                 "C09" => props::c09::run(&cx),
                 "C10" => props::c10::run(&cx),
+                "C11" => props::c11::run(&cx),
                 "C15" => props::c15::run(&cx),
                 "C16" => props::c16::run(&cx),
                 "C17" => props::c17::run(&cx),
                 "C18" => props::c18::run(&cx),
                 other => {
                     eprintln!("unknown property {}", other);
+                    3
+                }
+            };
+            std::process::exit(code);
+        }
+        Some("child") => {
+            // work that may kill the process; see proc.rs
+            let code = match args.get(2).map(|s| s.as_str()) {
+                Some("c11-leftrec") => props::c11::child_leftrec(args[3].parse().unwrap_or(6)),
+                other => {
+                    eprintln!("unknown child job {:?}", other);
                     3
                 }
             };
